@@ -607,7 +607,7 @@ class Exec:
             init = self.init_heap.get(fld)
             if init is None or term is init or term.eq(init):
                 continue
-            spec = m.get(fld, None)
+            spec = m.get(fld, m.get('*', None))
             if spec is True:
                 continue
             a = z3.Int('fr_a')
@@ -885,6 +885,10 @@ class Exec:
             st.env[tgt.id] = v
             return
         if isinstance(tgt, ast.Attribute):
+            if self._is_static_chain(tgt, st):
+                # assignment to a module-level name of another module (e.g. config.X = ...): tracked per path
+                st.ghost['$global:' + ast.unparse(tgt)] = v
+                return
             o = self.ev(tgt.value, st)
             self.set_attr(o, tgt.attr, v, st, ast.unparse(tgt))
             return
@@ -1057,6 +1061,9 @@ class Exec:
         raise Unsupported(f'constant container {type(c).__name__}')
 
     def ev_Attribute(self, e, st):
+        gk = '$global:' + ast.unparse(e)
+        if gk in st.ghost:
+            return st.ghost[gk]
         # module constants / enums first
         try:
             c = source.const_eval(self.mod, e) if self._is_static_chain(e, st) else None
@@ -1595,9 +1602,12 @@ class Exec:
                     raise Unsupported(f'missing argument {n} for {contract.name} at {desc}')
                 try:
                     cv = source.const_eval(cm, defaults[n])
-                except source.ConstError as x:
-                    raise Unsupported(f'default of {n} in {contract.name}: {x}')
-                t, ty = const_to_term(cv)
+                    t, ty = const_to_term(cv)
+                except (source.ConstError, Unsupported) as x:
+                    if contract.opaque:
+                        t, ty = S.fresh('dflt_' + n), S.Any      # default object of an opaque callee: unconstrained
+                    else:
+                        raise Unsupported(f'default of {n} in {contract.name}: {x}')
                 bound[n] = V(t, ty)
         return bound
 
@@ -1610,8 +1620,19 @@ class Exec:
 
     def call_contract_multi(self, contract, args, kwargs, st, desc):
         cm = source.load(contract.file)
-        fn = cm.function(contract.qualname)
-        bound = self.bind_args(fn, contract, args, kwargs, st, desc)
+        if contract.opaque and contract.qualname not in cm.functions:
+            # generated function (dataclass __init__): positional binding by the contract's parameter order
+            names = list(contract.params)
+            if len(args) > len(names) or any(k not in names for k in kwargs):
+                raise Unsupported(f'arguments of generated {contract.name} at {desc}')
+            bound = dict(zip(names, args))
+            bound.update(kwargs)
+            for n in names:
+                if n not in bound:
+                    bound[n] = V(S.fresh('dflt_' + n), S.Any)
+        else:
+            fn = cm.function(contract.qualname)
+            bound = self.bind_args(fn, contract, args, kwargs, st, desc)
         tag = self.uniq(f'call@{contract.qualname}')
         self.called_contracts.add(contract.key)
         # parameter types
@@ -1635,6 +1656,12 @@ class Exec:
             ff = contract.fresh_fields
             for f in (self.fresh_fields_of(contract.returns) if ff is None else set(ff)):
                 m.setdefault(f, [])
+        if '*' in m:
+            # every heap field known so far may be modified, subject to the given predicate (True: anywhere)
+            star = m.pop('*')
+            for f in set(st.heap) | set(self.init_heap):
+                if not f.startswith('ghost:'):
+                    m.setdefault(f, star)
         if allocates:
             nn = S.fresh('next_ref', z3.IntSort())
             st.assume(nn >= old_next)
